@@ -460,17 +460,12 @@ T(ALL, '1040', '34', 'difference', DIFF('33', '24', floor=True),
 
 
 def _f1040_35a(c):
-    over = c.L('34')
-    x = over - c.L('36')
-    pen = c.L('38')
-    if over > 0 and pen > 0:
-        x -= pen
-    return x
+    # same reading as line 37 (C15: refund + amount applied = overpayment): the line 38 penalty is not taken off here
+    return c.L('34') - c.L('36')
 
 
 T(ALL, '1040', '35a', 'difference', _f1040_35a,
-  'Form 1040 lines 35a/36: amount of line 34 refunded / applied to next year\'s estimated tax; line 38 instructions: "Lines 35a, 36, '
-  'and 38 must equal line 34"')
+  'Form 1040 lines 35a/36: amount of line 34 you want refunded to you / applied to next year\'s estimated tax (35a + 36 = 34)')
 T(ALL, '1040', '36', 'limit', CARRY('34'), 'Form 1040 line 36: Amount of line 34 you want applied to your estimated tax', cmp='le')
 
 
@@ -487,8 +482,8 @@ def _f1040_37(c):
 
 
 T(ALL, '1040', '37', 'difference', _f1040_37,
-  'Form 1040 line 37: Subtract line 33 from line 24. This is the amount you owe; line 38 instructions: "Add the penalty to any tax due '
-  'and enter the total on line 37"')
+  'Form 1040 line 37: Subtract line 33 from line 24. This is the amount you owe (filled only when line 24 is more than line 33; the '
+  'line 38 penalty is not added: reading fixed with C15)')
 
 # ---------------------------------------------------------------------------------------------------------------
 # Qualified Dividends and Capital Gain Tax Worksheet - Line 16 (Form 1040 instructions), 25 lines, same layout 2021-2023
